@@ -710,7 +710,7 @@ class Generator:
                     if bm[k + 1:end].strip():
                         cand = k + 1
                 k += 1
-            inserts.append((cand, '\n' + ghost_text(fn.tailexpr) + '\n', 'ghost'))
+            inserts.append((cand, '\n' + ghost_text(fn.tailexpr) + '\n', 'ghost_tail'))
         for where, text, nth, glines in fn.anchors:
             a, b, fuzzy = find_anchor(body, bm, text, nth)
             if fuzzy:
@@ -797,7 +797,7 @@ class Generator:
         edits.sort()
         # ---- assemble with a line map ----
         out.emit('    {', dict(kind='body', fn=fn.qual))
-        events = [(e[0], 0, 'edit', e) for e in edits] + [(p, 1, k, t) for p, t, k in inserts]
+        events = [(e[0], 0, 'edit', e) for e in edits] + [(p, 2 if k == 'ghost_tail' else 1, 'ghost' if k == 'ghost_tail' else k, t) for p, t, k in inserts]
         events.sort(key=lambda e: (e[0], e[1]))
         pos = 0
         cur = []   # pieces: (text, srcline or None)
